@@ -163,6 +163,9 @@ def run(tier, seed, replay):
         wres = vlib.run_tlc("LifecycleMC", "Lifecycle_wit.cfg", workers=1, timeout=300, heap_gb=2)
         if wres.violation != "NotAllSeen":
             raise vlib.MachineryError("vacuity: no behaviour exercises every clause (%s)" % (wres.error or wres.violation))
+        v.cov["tlc_runs"].append({"config": "Lifecycle_wit.cfg (vacuity witness, must be violated)", "distinct": wres.distinct,
+                                  "generated": wres.generated, "depth": wres.depth, "wall_s": round(wres.wall, 2),
+                                  "result": "witness found: one behaviour makes every clause's premise true"})
 
         # 4. seeded simulation: longer sequences over the mid alphabet
         nsim = 300 if tier == "quick" else 12000
@@ -307,7 +310,8 @@ def run(tier, seed, replay):
         if f["monfail"] == "GateBeforeInit":
             failed_cells.add((f.get("phase"), e["l"]["m"], e["l"]["mt"]))
         cur = reps.get(sig)
-        if cur is None or (e["n"], e["tr"] == "http") < (cur[1], cur[3]["tr"] == "http"):
+        # representative of a signature: the shortest sequence, a raw transport, the plainest message
+        if cur is None or (e["n"], e["tr"] == "http", e["l"]["mt"] != "none") < (cur[1], cur[3]["tr"] == "http", cur[3]["l"]["mt"] != "none"):
             reps[sig] = (by_id[e["seq"]], e["n"], f, e)
     for k, n in sorted(drift.items(), key=lambda kv: -kv[1]):
         v.drift.append("%s (%d lines)" % (k, n))
